@@ -209,5 +209,5 @@ func main() {
 		a08.WorkerMain(runCell)
 		return
 	}
-	vh.Main(gen, a08.RunAll)
+	vh.Main(gen, a08.RunAllScratch)
 }
